@@ -194,4 +194,38 @@ CHECKS = {
                         "FEC decoder internals (Reed-Solomon matrices ~13 kB per block) are an allowance of the heap bound, not modelled"],
         "trusted_base": ["model: coq/theories/Model/ObjRecv.v, Recv.v; ledger: coq/theories/Spec/C17Spec.v"],
     },
+    "C15": {
+        # thorough: the full generator on the dev profile (overflow checks + debug assertions), and the quick-size
+        # generator (subcommand toi-light) once more on both profiles (release = overflow checks, no debug assertions)
+        "runs": [{"subcmd": "toi", "shards_quick": 4, "shards_thorough": 8, "release": False},
+                 {"subcmd": "toi-light", "shards_quick": 0, "shards_thorough": 4}],
+        "parallel": 4,
+        "rule": "H lines: histories on a real flute Sender (public API) - every sequence of enabled operations {allocate_toi, drop handle i, "
+                "add_object without / with handle i (accepted; in a second pass also refused before / after the TOI was taken, and drops on other "
+                "threads), start object j, run to idle, remove_object j} up to depth 6 (quick) / 7 (thorough) at the allocator corners "
+                "(initial value max-1 and None=random) and one less elsewhere, for each width 16,32,48,64,80,112 x initial values "
+                "{1, 0, max-2, max-1, max, None, max+1, max+6, u128::MAX, u128::MAX-1, and for 112 bit 2^127, 2^112+2^40}; seeded random "
+                "histories of 6..40 (80) operations incl. references to dead handles/objects; 16-bit histories whose churn (C n = n x "
+                "allocate+drop, n around 65535 and 131070) cycles the whole TOI space past live values; short churns across the wrap for the "
+                "wider spaces; sender built on one thread, used on a second, dropped on the first (thr=1,2). Observed per operation: value "
+                "returned, (object recognised by payload, TOI read by parse_alc_pkt, raw TOI field cut out by the RFC 5651 layout) of every "
+                "object packet, TOI attributes of Sender::fdt_xml_data. For None the first observed value is given to the model as the draw. "
+                "W lines: push_lct_header on every TOI size-class boundary x TSI class + seeded values -> raw field, parse_lct_header. "
+                "Non-trivial: a history with >= 2 allocating operations and >= 1 releasing one (W: TOI > 0xffff); distinct = distinct input lines.",
+        "exhaustive_quick": True, "exhaustive_thorough": True,
+        "level_text": "Theorems C15_*: for every width, every initial value incl. the random default and every history of allocate / drop / add (with or without handle) / start / finish / remove within capacity, allocated TOIs are non-zero, below 2^width, pairwise distinct among live handles and objects, reusable only after release; the LCT TOI field width selection and the FDT decimal text round-trip every value < 2^112. Tied to toiallocator.rs / fdt.rs / lct.rs by exhaustive operation histories per width and initial value, with the TOI read back from emitted packets and the FDT XML. Thread clause (Send) checked by compilation and a cross-thread run, not proved.",
+        "explanation": "Theorems C15_* proved for all configurations (any initial value, any random draw) and all histories within the stated "
+                       "capacity precondition on the Gallina model of toiallocator.rs + the TOI owners in fdt.rs/filedesc.rs/sendersession.rs + the TOI field "
+                       "width selection of lct.rs + the decimal FDT attribute; the model is tied to the code by running the same histories on the real "
+                       "Sender and comparing every observation with the extracted model; P_C15_history / P_C15_wire (Coq-defined monitor, extracted) are "
+                       "evaluated on the implementation's observations. The clause 'handles and sender can be moved and used across threads' is checked "
+                       "by compilation (assert_send::<Sender>, assert_send::<Box<Toi>> in harness/src/c15.rs) and exercised (thr=1,2; T ops), not proved.",
+        "assumptions": ["model of the TOI life cycle is hand-written; faithfulness established by the correspondence run only",
+                        "capacity precondition: live TOIs + 2 < 2^width (otherwise the allocation loop of toiallocator.rs has no free value to find)",
+                        "Mutex/Arc abstracted: single-threaded semantics of the critical sections; Send/Sync are rustc facts (checked by compilation)",
+                        "the model is that of the code with fixes/D14-toi112-mask.patch applied"],
+        "trusted_base": ["model: coq/theories/Model/Toi.v (alloc_new, allocate, release, step/run over operations, toi_field_bytes, to_decimal)",
+                         "spec monitor: coq/theories/Spec/C15Spec.v (mon_step, fresh_ok, field_ok, fdt_ok)",
+                         "harness protocol: an object is recognised on the wire by its payload marker; 'run to idle' ends every started transfer"],
+    },
 }
